@@ -104,6 +104,32 @@ func (c *ctx) varElems(rel, name string) []string {
 	return nil
 }
 
+// varSource returns the source of a package-level variable's initialiser (as a one-element list).
+func (c *ctx) varSource(rel, name string) []string {
+	f := c.file(rel)
+	if f == nil {
+		return nil
+	}
+	for _, d := range f.Decls {
+		gd, ok := d.(*ast.GenDecl)
+		if !ok {
+			continue
+		}
+		for _, sp := range gd.Specs {
+			vs, ok := sp.(*ast.ValueSpec)
+			if !ok {
+				continue
+			}
+			for i, n := range vs.Names {
+				if n.Name == name && i < len(vs.Values) {
+					return []string{c.src(vs.Values[i])}
+				}
+			}
+		}
+	}
+	return nil
+}
+
 // constValue returns the source of a package-level constant's value.
 func (c *ctx) constValue(rel, name string) string {
 	f := c.file(rel)
